@@ -98,8 +98,11 @@ def inputs():
     np.random.set_state(st)
     long = protect(optical_signal(np.full(2 ** 17, 0.02 + 0.01j)))
     tlong = protect(np.arange(2 ** 17) * gv.dt)
+    rl = np.random.RandomState(23)
+    elong = protect(electrical_signal(rl.randn(2 ** 16) * 0.3))            # a long noise-free record (its extreme samples lie outside any 99.99 % interval)
+    along = protect(rl.randn(2 ** 16) * 0.3)
     syncrx = protect(np.roll(np.tile(np.kron(bits.data, np.ones(sps)), 3), 7 * sps + 3).astype(float))
-    return dict(bits=bits, x=x, t=t, o1=o1, o2=o2, mod=mod, rx=rx, ppmbits=ppmbits, ppmwave=ppmwave, slots=slots, eye=ey, syncrx=syncrx, long=long, tlong=tlong)
+    return dict(bits=bits, x=x, t=t, o1=o1, o2=o2, mod=mod, rx=rx, ppmbits=ppmbits, ppmwave=ppmwave, slots=slots, eye=ey, syncrx=syncrx, long=long, tlong=tlong, elong=elong, along=along)
 
 
 def funcs():
@@ -143,6 +146,9 @@ def funcs():
         "ook.theory_BER": (lambda I: (np.array([1.0, 2.0]),), lambda a: ook.theory_BER(a[0], 0.1, 0.2), 1),
         # long records (2^17 samples): the random devices must follow numpy's global seed whatever the record length
         "PD-long": (lambda I: (I["long"],), lambda a: dv.PD(a[0], 1e9), 1),
+        "ADC-long": (lambda I: (I["elong"],), lambda a: dv.ADC(a[0], n=4), 1),
+        "ADC-long-ndarray": (lambda I: (I["along"],), lambda a: dv.ADC(a[0], n=3, otype="n"), 1),
+        "LPF-long": (lambda I: (I["elong"],), lambda a: dv.LPF(a[0], 2e9), 1),
         "EDFA-long": (lambda I: (I["long"],), lambda a: dv.EDFA(a[0], 10, 5), 1),
         "LASER-long": (lambda I: (I["tlong"],), lambda a: dv.LASER(a[0], 0.0, lw=1e5), 1),
         "FBG": (lambda I: (I["o1"],), lambda a: dv.FBG(a[0], fc=gv.f0, vdneff=1e-4, kL=2.0, print_params=False, retH=True), 1),
